@@ -159,12 +159,14 @@ Definition xref_step (root sr : bool) (l : list item) (o : xop) : list item :=
                 else l
   | Reverse => rev l
   | Clear => []
+  | ExtendSelf | IAddSelf => l ++ l
   end.
 
 Theorem xstep_refines s o : Inv s -> Strict s ->
   items (fst (xstep s o)) = xref_step (is_root s) (is_sr s) (items s) o.
 Proof.
-  intros HI HS. destruct o as [o|i|x| |]; cbn [xstep xref_step fst].
+  intros HI HS. destruct o as [o|i|x| | | |]; cbn [xstep xref_step fst];
+    try (apply (extend_self_spec s HI HS)).
   - apply step_refines, HI.
   - destruct (norm_index i (zlen (items s))) as [p|] eqn:Ep.
     + pose proof (norm_index_some _ _ _ Ep) as [_ Hp].
@@ -235,12 +237,13 @@ Definition xoutcome (s : st) (o : xop) : res (option item) :=
              end
   | Remove x => if negb (is_item x) then Err ETYPE
                 else if existsb (fun y => item_eqb y x) (items s) then Ok None else Err EVALUE
-  | Reverse | Clear => Ok None
+  | Reverse | Clear | ExtendSelf | IAddSelf => Ok None
   end.
 
 Theorem xstep_outcome s o : Inv s -> Strict s -> snd (xstep s o) = xoutcome s o.
 Proof.
-  intros HI HS. destruct o as [o|i|x| |]; cbn [xstep xoutcome snd].
+  intros HI HS. destruct o as [o|i|x| | | |]; cbn [xstep xoutcome snd];
+    try (destruct (extend_self_spec s HI HS) as (-> & _); reflexivity).
   - now rewrite (step_error_exact s o HI).
   - destruct (norm_index i (zlen (items s))) as [p|] eqn:Ep.
     + pose proof (norm_index_some _ _ _ Ep) as [Hlt Hp].
